@@ -211,7 +211,8 @@ KF_C13 = "C13-inflight-response-lost-on-rewind"
 
 
 class C13(Mon):
-    fields = ("responses", "inflight_cancelled", "opened")
+    fields = ("responses", "inflight_cancelled", "opened", "user_turn")
+    user_turn = False
 
     def __init__(self, sc, tr):
         self.sc, self.tr, self.I, self.w, self.eng = sc, tr, sc.I, sc.w, sc.eng
@@ -227,11 +228,14 @@ class C13(Mon):
             self.opened = ()
         elif kind == "plan-yield" and a[0] is sc.plan:
             self.responses, self.inflight_cancelled = (), False
+            self.user_turn = True
+        elif kind in ("plan-yield", "replay-yield"):
+            self.user_turn = False       # a replayed / helper-plan message is being processed: its device results are not the user plan's
         elif kind == "handler-result" and a[0] is cur:
             self.responses += (a[1],)
         elif kind == "dev-complete" and getattr(a[0], "msg", None) is cur:
             self.responses += (a[1],)
-        elif kind == "dev-result" and cur is not None and cur.obj is a[0]:
+        elif kind == "dev-result" and cur is not None and cur.obj is a[0] and self.user_turn:
             self.responses += (a[1],)        # what the device's method returned to the real handler (the status of a 'set')
         elif kind in ("handler-cancelled", "outcome-lost") and a[0] is cur:
             self.inflight_cancelled = True
